@@ -1051,8 +1051,8 @@ def run(ctx, bt):
     _run(ctx, bt, n_period=ctx.scale(1400, 27000), n_bt=ctx.scale(200, 4500), n_ill=ctx.scale(80, 1500),
          n_count=ctx.scale(1000, 21000), n_count_bt=ctx.scale(160, 3600))
     # the schedulers at work: complete (nested) backtests whose stacks are headed by the calendar schedulers, RunOnce,
-    # RunEveryNPeriods or RunAfterDays - the model computes the gate from the index (shadow copies are first called on the
-    # synthetic row, a backtest's own tree on the first data row) and executes the whole run
+    # RunEveryNPeriods or RunAfterDays - the model computes the gate from the index (a backtest's own tree and every shadow copy
+    # are first called on the first data row; nobody's algos run on the synthetic row) and executes the whole run
     from .. import whole_run as W
     W.whole_run_protocol(ctx, bt, ctx.scale(30, 600), "whole-run-x[C12]:schedulers-inside-backtests", extended=True)
 
